@@ -344,6 +344,12 @@ var c16IllTyped = []struct{ name, src string }{
 	{"tuple-self", "package main\n\nimport frt\n\nlet f x =\n  frt.Fst x = x\n"},
 	{"mutual-vars", "package main\n\nlet f a b =\n  let c = a b\n  let d = b a\n  c d\n"},
 	{"slice-of-self", "package main\n\nlet f x =\n  [x] = x\n"},
+	// mistakes fc only notices while it produces the Go text (after parsing and inference), placed
+	// between valid definitions: still a diagnostic, still nothing written
+	{"late-unclosed-hole", "package main\n\nimport frt\n\nlet a () =\n  1\n\nlet f (name:string) =\n  $\"HELLO {name\"\n\nlet z () =\n  2\n"},
+	{"late-lone-open-brace", "package main\n\nimport frt\n\nlet a () =\n  1\n\nlet f (name:string) =\n  $\"{\"\n\nlet z () =\n  2\n"},
+	{"late-unclosed-raw-hole", "package main\n\nimport frt\n\nlet a () =\n  1\n\nlet f (name:string) =\n  $`x {name`\n\nlet z () =\n  2\n"},
+	{"late-unclosed-hole-in-match", "package main\n\nimport frt\n\ntype U =\n| A of int\n| B\n\nlet a () =\n  1\n\nlet f (u:U) (name:string) =\n  match u with\n  | A i -> $\"{i} {name\"\n  | B -> name\n"},
 	{"recursive-record", "package main\n\ntype T = {A: T}\n\nlet f (t:T) =\n  t.A\n"},
 	{"recursive-record-slice", "package main\n\nimport frt\nimport slice\n\ntype Tree = {Val: int; Kids: []Tree}\n\nlet size (t:Tree) =\n  slice.Length t.Kids\n\nlet main () =\n  let leaf = {Val=1; Kids=slice.New<Tree> ()}\n  frt.Printf1 \"%d\\n\" (size leaf)\n"},
 	{"recursive-record-and", "package main\n\ntype A = {B: B}\nand B = {A: A}\n\nlet f (a:A) =\n  a.B\n"},
